@@ -158,7 +158,13 @@ def do_replay(scratch, h, single_out):
     tests = [t for t in tests if t[0] != 'cover']
     results = []
     if not tests:
-        return results
+        # Kani emits no playback test when the harness reads no nondeterministic value (a fully concrete history)
+        # or when trace generation ran out of time: fall back to running the harness natively with an empty value
+        # vector (succeeds in reproducing exactly when the failing path needs no symbolic input)
+        name = 'kani_concrete_playback_%s_native' % h['name']
+        body = ('/// synthesised by the driver: native run of the harness without concrete values\n'
+                '#[test]\nfn %s() {\n    let concrete_vals: Vec<Vec<u8>> = vec![];\n    kani::concrete_playback_run(concrete_vals, %s);\n}\n' % (name, h['name']))
+        tests = [('assertion', '; '.join(kani_crate.classify(single_out)[1])[:200] or 'native run', name, body)]
     target = os.path.join(scratch.crate, 'src', h['module'], 'kani_proofs.rs')
     with open(target, 'a') as f:
         for kind, desc, name, body in tests:
@@ -170,6 +176,8 @@ def do_replay(scratch, h, single_out):
             out = p.stdout + '\n' + p.stderr
             ran = 'running 1 test' in out
             failed = ran and ('test result: FAILED' in out or 'panicked at' in out)
+            if failed and ('concrete_vals' in out and 'index out of bounds' in out and 'kani' in out and not re.search(r'panicked at src/(?!.*kani_proofs)', out) and 'C0' not in out and 'C1' not in out):
+                failed = False  # the synthesised run needed symbolic values it did not have
             passed = ran and 'test result: ok' in out
         except subprocess.TimeoutExpired:
             out, ran, failed, passed = '[native playback timed out (possible hang in the real code)]', True, True, False
